@@ -434,10 +434,20 @@ def ms_cases(count, seed):
         for a, (i, j) in enumerate(pairs):
             used = {typ[b] for b, (p, q) in enumerate(pairs[:a]) if (i < p < j < q) or (p < i < q < j)}
             typ.append(min(t for t in range(30) if t not in used))
-            s[i - 1], s[j - 1] = OPEN[typ[a]], CLOSE[typ[a]]
+        # every fourth case starts its bracket types further up the alphabet (so that "<" ">" and the letter
+        # brackets occur) ...
+        base = rng.choice([1, 2, 3, 4, 26]) if k % 4 == 3 else 0
+        base = min(base, 29 - max(typ)) if typ else 0
+        for a, (i, j) in enumerate(pairs):
+            s[i - 1], s[j - 1] = OPEN[typ[a] + base], CLOSE[typ[a] + base]
         seq = [rng.choice("ACGUacgun") for _ in range(n)]
         ncuts = rng.randint(0, min(3, n - 1))
         cuts = sorted(rng.sample(range(1, n), ncuts))
+        closers = [j - 1 for _, j in pairs if 1 <= j - 1 < n]
+        if k % 2 == 1 and closers and ncuts:
+            # ... and every second case cuts right in front of a closing bracket: a strand whose structure line
+            # BEGINS with a closing bracket (">" is also the header marker of the multi-strand text)
+            cuts = sorted(set(cuts[:-1]) | {rng.choice(closers)})
         bounds = [0] + cuts + [n]
         strands = [{"sequence": seq[a:b], "structure": s[a:b]} for a, b in zip(bounds, bounds[1:])]
         cases.append({"id": f"ms{seed}-{k}", "kind": "ms", "instrands": strands, "headers": bool(k % 2)})
